@@ -26,8 +26,11 @@ def clause_ab(ctx, P):
         n[f.name] = n.get(f.name, 0) + 1
         tr = tracer(P, f)
         e = tr.operand(s["r"]["ops"][0], (b, i))
+        # the value of resolve_service_from_cache: its Ok payload, or the call itself when it returns the service directly
         pay = [x for x in walk(e) if x[0] == "payload" and x[2] == "Ok" and has_call(x[1], "Zeroconf::resolve_service_from_cache")]
-        ok = bool(pay) and all(a[0] == "call" and name_matches(strip_generics(a[1]), "Box::new") for a in strip(e))
+        direct = [a for a in strip(e) if a[0] == "call" and name_matches(strip_generics(a[1]), "Box::new") and a[2] and
+                  all(y[0] == "call" and name_matches(strip_generics(y[1]), "Zeroconf::resolve_service_from_cache") for y in strip(a[2][0]))]
+        ok = (bool(pay) or bool(direct)) and all(a[0] == "call" and name_matches(strip_generics(a[1]), "Box::new") for a in strip(e))
         ctx.ob("C03a.F8.resolved-from-cache-function", "%s|ServiceResolved#%d" % (f.name, n[f.name]), ok, f.loc(b, i),
                "ServiceResolved carries Box::new(Ok payload of resolve_service_from_cache)" if ok else "ServiceResolved built from " + show(e)[:120])
         e_valid = guard_edges(P, f, lambda atom, outcome, bb: atom[0] == "call" and name_matches(strip_generics(atom[1]), "ResolvedService::is_valid") and outcome is True
